@@ -20,6 +20,8 @@ def run(tier, seed):
                 'when the fix_view_arrays contract fails or is undecided); System.reset reproducibility is a bounded native check')
     items = [(T.init_resume('C14'),), (T.calc_h('C14', resume_value=True),), (T.run('C14', drop=('success=>initialisation-test-not-failed',)),)]
     from contracts import fn_resume as RS
+    from contracts import fn_sequence as Q
+    items += [(Q.system_reset('C14'),), (Q.p_restore('C14'),), (Q.delegation('C14', 'e_clear', 'e_clear'),)]
     items += [(RS.dae_reset('C14'),), (RS.dae_init_t('C14'),), (RS.fix_view_arrays('C14'), None, RS.replay_snapshot)]
     run_contracts(pack, items)
     RS.bounded_reset(pack, 'C14')
